@@ -2,6 +2,7 @@ package main
 
 import (
 	"bufio"
+	"fmt"
 	"encoding/json"
 	"os"
 	"path/filepath"
@@ -130,6 +131,16 @@ func candidateSignatures(m *Mismatch, ev map[string]any, sc *Scenario) []string 
 		}
 		if count > 1 && m.Hdr != "" && (m.Info == "addressed") && unevenExecs(sc, name) {
 			out = append(out, "K5")
+		}
+	}
+	// K8: `%` in Dir, Filename or the test name of a standalone call
+	if ev["ev"] == "match" && (ev["api"] == "ssnap" || ev["api"] == "sjson") {
+		pct := strings.Contains(fmt.Sprint(ev["t"]), "%")
+		if cfg, ok := ev["cfg"].(map[string]any); ok {
+			pct = pct || strings.Contains(fmt.Sprint(cfg["dir"]), "%") || strings.Contains(fmt.Sprint(cfg["filename"]), "%")
+		}
+		if pct {
+			out = append(out, "K8")
 		}
 	}
 	if sc != nil {
